@@ -77,6 +77,8 @@ def from_sparse(data, cols, channel_ids):
         List of requested channel ids (columns).
 
     """
+    # NOTE: signed integers, so that -1 can be appended below (channel ids may come as uint32).
+    channel_ids = np.asarray(channel_ids, dtype=np.int64)
     # The axis in the data that contains the channels.
     if len(channel_ids) != len(np.unique(channel_ids)):
         raise NotImplementedError("Multiple identical requested channels "
